@@ -64,7 +64,8 @@ Print Assumptions C06_attrs_from_session.
    carry a signature record whose signer is the configured key — the
    crypto.Signer when set, else Key —, whose reference is "#"+ID of the
    enclosing element, which covers that element as emitted, and whose method is
-   the configured RSA method, RSA-SHA1 when none is configured. *)
+   the configured method — one of the key's algorithm (RSA for Key and RSA
+   signers, ECDSA for an ECDSA crypto.Signer) —, RSA-SHA1 when none is configured. *)
 Theorem C06_both_signed :
   forall cfg cp rt rq s now tnow addr relay rnd action resp rl,
     respond cfg cp rt rq s now tnow addr relay rnd = Ok (action, resp, rl) ->
@@ -74,7 +75,7 @@ Theorem C06_both_signed :
     sg_ref sr = "#" +++ rs_id (rs_body resp) /\ sg_over sr = rs_body resp /\
     sg_signer sa = signer_key cfg /\ sg_method sa = effective_method cfg /\
     sg_ref sa = "#" +++ a_id a /\ sg_over sa = a /\
-    In (effective_method cfg) rsa_methods /\
+    In (effective_method cfg) (allowed_methods cfg) /\
     (forall k, idp_signer cfg = Some k -> signer_key cfg = k) /\
     (idp_signer cfg = None -> signer_key cfg = idp_key cfg) /\
     (sig_method cfg = "" -> effective_method cfg = rsa_sha1).
@@ -98,3 +99,27 @@ Theorem C06_monitor_holds_of_model :
                 c6_obs := formobs_of (c06_model c0) |} = true.
 Proof. exact c06_spec_of_model. Qed.
 Print Assumptions C06_monitor_holds_of_model.
+
+(* The step API: whatever sequence of MakeAssertionEl / MakeResponse / PostBinding
+   (WriteResponse) calls is made on a request, from any state of the request
+   object, PostBinding succeeds — a form is written — only for an HTTP-POST
+   endpoint; in particular also when MakeResponse was called first. *)
+Theorem C06_post_form_only_to_post_endpoints :
+  forall x l st,
+    posts_only_to_post (ep_binding (rt_ep (sx_rt x)))
+                       (map (fun s => match s with SMakeAssertionEl => 0 | SMakeResponse => 1 | SPostBinding => 2 end) l)
+                       (snd (run_steps x l st)) = true.
+Proof. exact steps_post_only_to_post. Qed.
+Print Assumptions C06_post_form_only_to_post_endpoints.
+
+Theorem C06_step_monitor_holds_of_model :
+  forall base steps,
+    match c06_route base with
+    | None => True
+    | Some r =>
+        let '(st, os) := run_steps (c08s_ctx base r) (map step_of steps) st_empty in
+        c06s_spec {| s8_base := base; s8_steps := steps; s8_results := os;
+                     s8_ael_set := is_some (st_ael st); s8_resp_set := is_some (st_resp st) |} = true
+    end.
+Proof. exact c06s_spec_of_model. Qed.
+Print Assumptions C06_step_monitor_holds_of_model.
